@@ -359,7 +359,10 @@ impl AsyncWrite for SimSink {
         if maybe_pending(self.1.pending16, cx) {
             return Poll::Pending;
         }
-        let n = if self.1.max == 0 { src.len() } else { src.len().min(self.1.max) };
+        // tiny write fragments are for small outputs: after ~256 KiB the sink takes whatever it is
+        // given (or a multi-megabyte archive costs the step budget in the harness's own fragmentation)
+        let written = self.0.lock().unwrap().len();
+        let n = if self.1.max == 0 || written > 256 * 1024 { src.len() } else { src.len().min(self.1.max) };
         self.0.lock().unwrap().extend_from_slice(&src[..n]);
         Poll::Ready(Ok(n))
     }
